@@ -65,6 +65,93 @@ def check(run, prog, tier):
     run.rule("C05-U11", "functions that convert a supplied value to internal units do not write into the object they "
                         "were given", minimum=30)
     rule_U11(run, prog)
+    run.rule("C05-U13", "storage behind a units-managed property is written with internal values only, and only directly: no value "
+                        "read through the property (current units) goes into the storage, no element is assigned through the "
+                        "property (the converted copy)", minimum=12)
+    rule_U13(run, prog)
+
+
+def rule_U13(run, prog):
+    """The storage `_X` behind a units-managed property `X` holds internal units; reading `X` returns the values converted
+    to the current units *as a new array*.  For every class with such a property, over all methods it defines or inherits
+    (including overridden ones, which are reached through super()):
+      (i)  a store into self._X (whole or element) of a value that derives - through local names - from a read of self.X
+           outside an internal-units block puts current-units numbers where internal ones are expected: the object
+           changes its physical values by the conversion factor;
+      (ii) an assignment to an element of self.X writes into the converted copy and is lost."""
+    from ..loader import parents_map
+    from .. import unitflow
+    rid = "C05-U13"
+    n = 0
+    seen = set()
+    for cls in prog.all_classes():
+        if ".tests" in cls.module.name or ".wizard" in cls.module.name:
+            continue
+        man = unitflow.converted_attributes(prog, cls)
+        if not man:
+            continue
+        for b in [x for x in prog.mro(cls) if x is not None]:
+            for nme, fn in sorted(b.methods.items()):
+                key0 = (cls.name, fn.qualname)
+                if key0 in seen:
+                    continue
+                seen.add(key0)
+                pm = parents_map(fn.node)
+                taint = set()
+
+                def tainted(e):
+                    for x in ast.walk(e):
+                        if isinstance(x, ast.Attribute) and norm(x.value) == "self" and x.attr in man and isinstance(x.ctx, ast.Load) \
+                                and not unitflow.in_int_context(pm, x):
+                            p_ = pm.get(x)
+                            if isinstance(p_, ast.Attribute) and p_.attr in ("shape", "dtype", "ndim", "size"):
+                                continue
+                            return True
+                        if isinstance(x, ast.Name) and x.id in taint:
+                            return True
+                    return False
+                changed = True
+                while changed:
+                    changed = False
+                    for st in walk_no_nested(fn.node):
+                        if isinstance(st, ast.Assign) and tainted(st.value):
+                            # a value converted back to internal units is internal again
+                            if isinstance(st.value, ast.Call) and (call_name(st.value) or "").endswith("2_internal_u"):
+                                continue
+                            for t_ in st.targets:
+                                for y in (t_.elts if isinstance(t_, (ast.Tuple, ast.List)) else [t_]):
+                                    if isinstance(y, ast.Name) and y.id not in taint:
+                                        taint.add(y.id)
+                                        changed = True
+                for st in walk_no_nested(fn.node):
+                    if not isinstance(st, (ast.Assign, ast.AugAssign)):
+                        continue
+                    for t_ in (st.targets if isinstance(st, ast.Assign) else [st.target]):
+                        b_ = t_
+                        while isinstance(b_, ast.Subscript):
+                            b_ = b_.value
+                        if not (isinstance(b_, ast.Attribute) and norm(b_.value) == "self"):
+                            continue
+                        if b_.attr.startswith("_") and b_.attr[1:] in man:
+                            n += 1
+                            prog.consulted.add(fn.relpath)
+                            bad = tainted(st.value) and not unitflow.in_int_context(pm, st) and not (
+                                isinstance(st.value, ast.Call) and (call_name(st.value) or "").endswith("2_internal_u"))
+                            run.obligation(rid, "%s:%s" % (cls.name, fn.short), not bad, key="storage-internal:" + norm(st)[:50],
+                                           message="%s (a method of %s objects) stores into self.%s a value that comes from reading "
+                                                   "self.%s outside internal units (%s): the storage holds internal units, the value is "
+                                                   "in the current ones - under energy_units the object's values change by the "
+                                                   "conversion factor" % (fn.short, cls.name, b_.attr, b_.attr[1:], norm(st)[:60]),
+                                           loc=fn.loc(st), sample={"store": norm(st)[:80], "tainted_locals": sorted(taint)[:6]})
+                        elif b_ is not t_ and b_.attr in man:
+                            n += 1
+                            prog.consulted.add(fn.relpath)
+                            run.obligation(rid, "%s:%s" % (cls.name, fn.short), False, key="element-through-property:" + norm(st)[:50],
+                                           message="%s assigns to an element of self.%s (%s): the units-managed property returns the "
+                                                   "converted values as a new array, the assignment goes into that copy and is lost"
+                                                   % (fn.short, b_.attr, norm(st)[:60]), loc=fn.loc(st), sample={"store": norm(st)[:80]})
+    if n < 12:
+        raise AnalysisError("only %d stores into storage of units-managed properties found (13 confirmed)" % n)
 
 
 def rule_U11(run, prog):
